@@ -2,15 +2,16 @@
    online interpreter by tools/py2coq_onlinevisitor.py) against the hand model keyed by node name (OnlineNamed.v).
    [OpRel a o h]: the operation object o that the generated dictionary holds under the name of node a is of the class the hand model
    assumes for a (op_init / ustep / bstep / op_reset dispatch on the formula [sem a]) and its fields are in the simulation relation of
-   OnlineGenCorrect.v with the hand state h.  Proved here, for every node class:
-     - construction: the generated clause of a supported node stores an object related to op_init (sem a); the clause of an
-       unsupported node (and of every node above one) is None, as set_ast raises (gen_construct_rejects / gen_construct_accepts);
-     - update: operator.update(..) on a related object returns the value of ustep / bstep and a related object (gop_update1_refines,
-       gop_update2_refines), and the generated visitUnary / visitBinary clause, run on the result of the children, is nvisit_un /
-       nvisit_bi on related dictionaries and memos (gen_update_un_step / gen_update_bi_step / gen_update_leaf_step);
-     - reset: operator.reset() on a related object is op_reset (gop_reset_refines). *)
+   OnlineGenCorrect.v with the hand state h.
+   Proved here: (1) per node class (onlinevisitor_gen_refines): the construction clause stores an object related to op_init (sem a),
+   unsupported classes give None; gop_update1/2 on a related object return ustep / bstep and a related object; gop_reset is op_reset.
+   (2) By induction over the node tree and the forest, under "names are injective on the nodes of the specification"
+   (NodeNameCorrect.names_injective): gen_construct / gen_set_ast build a dictionary related to ndict_init (gen_set_ast_refines),
+   gen_update with the `visited` memo = nvisit (gen_update_refines: DictRel / MemoRel are invariants), gen_update_step = nmon_step,
+   gen_run = nmon_run (gen_run_refines), gen_reset_forest leads back to a dictionary related to ndict_init (gen_reset_refines).
+   (3) Closed statements: gen_monitor_refines (C02_generated_monitor), gen_reset_like_fresh (C10_generated_reset). *)
 From Coq Require Import List Bool Arith ZArith String Lia.
-From RV Require Import Val Syntax Rho Offline ListFacts Online Units NodeName OnlineNamed OnlineGen OnlineGenCorrect OnlineVisitorGen.
+From RV Require Import Val Syntax Rho Offline ListFacts Online Units NodeName NodeNameCorrect OnlineNamed OnlineNamedCorrect Reset OnlineGen OnlineGenCorrect OnlineVisitorGen.
 Import ListNotations.
 
 Section VisitorCorrect.
@@ -210,3 +211,494 @@ Proof.
   split; [intros; eapply gop_update2_refines; eassumption|intros; eapply gop_reset_refines; eassumption].
 Qed.
 Print Assumptions onlinevisitor_gen_refines.
+
+(* ================= the whole visitors: induction over the node tree =================
+   D: the nodes of the specification (closed under sub-nodes, names injective on it, every class supported, bounds ordered). *)
+Section TreeCorrect.
+Context {VS : Val} (AR : Arith VS).
+Variable vidx : string -> string -> nat.
+Variable cval : string -> V.
+Variable bnd : bound -> bound -> nat * nat.
+Variable tut : bound -> bound -> option (Z * Z).
+Notation sem := (sem vidx cval bnd).
+Notation gop := (@gop VS).
+Notation OpRel := (OpRel bnd).
+Variable D : node -> Prop.
+Hypothesis D_sub : forall a b, D a -> In b (subnodes a) -> D b.
+Hypothesis D_inj : forall a b, D a -> D b -> nname a = nname b -> a = b.
+Hypothesis D_past : forall a, D a -> top_past a = true.
+Hypothesis D_wfb : forall a, D a -> top_wfb bnd a.
+
+Definition nleaf (a : node) : bool := match a with NVar _ _ | NConst _ => true | _ => false end.
+(* the generated dictionary holds, under the name of every operator node, an object related to the hand state under that name;
+   the generated memo agrees with the hand memo on the names of operator nodes (visitLeaf memoises leaf names too: never read) *)
+Definition DictRel (gd : sdict gop) (hd : ndict) : Prop :=
+  forall a, D a -> nleaf a = false -> exists o, gd (nname a) = Some o /\ OpRel a o (hd (nname a)).
+Definition MemoRel (gm : sdict V) (hm : nmemo) : Prop :=
+  forall a, D a -> nleaf a = false -> gm (nname a) = nlookup hm (nname a).
+
+Lemma dict_upd gd d x o s : DictRel gd d -> D x -> OpRel x o s -> DictRel (sd_set gd (nname x) o) (nupd d (nname x) s).
+Proof.
+  intros HD Dx Ro a Da Hl. unfold sd_set, nupd. destruct (String.eqb_spec (nname a) (nname x)) as [E|E].
+  - rewrite (D_inj a x Da Dx E). exists o. split; [reflexivity|exact Ro].
+  - exact (HD a Da Hl).
+Qed.
+Lemma memo_upd gm m k r : MemoRel gm m -> MemoRel (sd_set gm k r) ((k, r) :: m).
+Proof.
+  intros HM a Da Hl. unfold sd_set. cbn [nlookup]. destruct (String.eqb (nname a) k); [reflexivity|exact (HM a Da Hl)].
+Qed.
+Lemma memo_leaf gm m x r : MemoRel gm m -> D x -> nleaf x = true -> MemoRel (sd_set gm (nname x) r) m.
+Proof.
+  intros HM Dx Hx a Da Hl. unfold sd_set. destruct (String.eqb_spec (nname a) (nname x)) as [E|E].
+  - rewrite (D_inj a x Da Dx E) in Hl. congruence.
+  - exact (HM a Da Hl).
+Qed.
+
+(* what the generated visitUnary / visitBinary do after the children *)
+Definition g_un_tail (k : string) (gd1 : sdict gop) (gm1 : sdict V) (v1 : V) : option (sdict gop * sdict V * V) :=
+  match sd_get gd1 k with
+  | Some o => match gop_update1 AR o v1 with Some (o', r) => Some (sd_set gd1 k o', sd_set gm1 k r, r) | None => None end
+  | None => None
+  end.
+Definition g_bi_tail (k : string) (gd1 : sdict gop) (gm1 : sdict V) (v1 v2 : V) : option (sdict gop * sdict V * V) :=
+  match sd_get gd1 k with
+  | Some o => match gop_update2 AR o v1 v2 with Some (o', r) => Some (sd_set gd1 k o', sd_set gm1 k r, r) | None => None end
+  | None => None
+  end.
+
+Lemma fin_un x gd1 d1 gm1 m1 v1 : D x -> is_un x = true -> DictRel gd1 d1 -> MemoRel gm1 m1 ->
+  exists gd' gm', g_un_tail (nname x) gd1 gm1 v1 = Some (gd', gm', snd (nvisit_un AR vidx cval bnd x (d1, m1, v1))) /\
+    DictRel gd' (fst (fst (nvisit_un AR vidx cval bnd x (d1, m1, v1)))) /\
+    MemoRel gm' (snd (fst (nvisit_un AR vidx cval bnd x (d1, m1, v1)))).
+Proof.
+  intros Dx Hu HD HM. unfold g_un_tail, sd_get, nvisit_un.
+  assert (Hl : nleaf x = false) by (destruct x; try discriminate Hu; reflexivity).
+  destruct (HD _ Dx Hl) as (o & Eo & Ro). rewrite Eo.
+  destruct (gop_update1_refines AR vidx cval bnd x o (d1 (nname x)) v1 Hu (D_past _ Dx) (D_wfb _ Dx) Ro) as (o' & Eu & Ro'). rewrite Eu.
+  destruct (ustep AR (sem x) (d1 (nname x)) v1) as [s' out]. cbn [fst snd] in *.
+  eexists; eexists; split; [reflexivity|]. split; [apply dict_upd; assumption|apply memo_upd; assumption].
+Qed.
+Lemma fin_bi x gd1 d1 gm1 m1 v1 v2 : D x -> is_bi x = true -> DictRel gd1 d1 -> MemoRel gm1 m1 ->
+  let res := (let '(s', out) := bstep AR pk0 (sem x) (d1 (nname x)) v1 v2 in (nupd d1 (nname x) s', (nname x, out) :: m1, out)) in
+  exists gd' gm', g_bi_tail (nname x) gd1 gm1 v1 v2 = Some (gd', gm', snd res) /\ DictRel gd' (fst (fst res)) /\ MemoRel gm' (snd (fst res)).
+Proof.
+  intros Dx Hu HD HM. unfold g_bi_tail, sd_get.
+  assert (Hl : nleaf x = false) by (destruct x; try discriminate Hu; reflexivity).
+  destruct (HD _ Dx Hl) as (o & Eo & Ro). rewrite Eo.
+  destruct (gop_update2_refines AR vidx cval bnd x o (d1 (nname x)) v1 v2 Hu (D_past _ Dx) (D_wfb _ Dx) Ro) as (o' & Eu & Ro'). rewrite Eu.
+  destruct (bstep AR pk0 (sem x) (d1 (nname x)) v1 v2) as [s' out]. cbn [fst snd] in *.
+  eexists; eexists; split; [reflexivity|]. split; [apply dict_upd; assumption|apply memo_upd; assumption].
+Qed.
+
+Section OneUpdate.
+Variable env : nat -> V.
+Variable vobj : string -> string -> option V.
+Hypothesis vobj_env : forall v f, vobj v f = Some (env (vidx v f)).
+Notation nvisit := (nvisit AR pk0 vidx cval bnd env).
+
+Lemma child_un x c : (exists u, x = NUn u c) \/ (exists u b e, x = NTUn u b e c) -> In c (subnodes x).
+Proof. intros [[u ->]|[u [b [e ->]]]]; right; apply subnodes_self. Qed.
+
+(* AbstractOnlineUpdateVisitor.visit on a node of the specification = nvisit *)
+Theorem gen_update_refines : forall x, D x -> forall gd hd gm hm, DictRel gd hd -> MemoRel gm hm ->
+  exists gd' gm', gen_update AR cval vobj x gd gm = Some (gd', gm', snd (nvisit x hd hm)) /\
+    DictRel gd' (fst (fst (nvisit x hd hm))) /\ MemoRel gm' (snd (fst (nvisit x hd hm))).
+Proof.
+  induction x as [v f|t|u c IH|u b e c IH|u c1 IH1 c2 IH2|u c1 IH1 c2 IH2|u b e c1 IH1 c2 IH2]; intros Dx gd hd gm hm HD HM.
+  - cbn [gen_update OnlineNamed.nvisit fst snd]. rewrite vobj_env. eexists; eexists; split; [reflexivity|]. split; [exact HD|].
+    apply memo_leaf; [exact HM|exact Dx|reflexivity].
+  - cbn [gen_update OnlineNamed.nvisit fst snd]. eexists; eexists; split; [reflexivity|]. split; [exact HD|].
+    apply memo_leaf; [exact HM|exact Dx|reflexivity].
+  - pose proof (D_past _ Dx) as Hp. cbn [top_past] in Hp. cbn [gen_update OnlineNamed.nvisit]. rewrite Hp.
+    pose proof (HM _ Dx eq_refl) as Hm. unfold sd_mem, sd_get at 1. rewrite Hm.
+    destruct (nlookup hm (nname (NUn u c))) as [v|] eqn:El.
+    + exists gd, gm. cbn [fst snd]. repeat split; assumption.
+    + assert (Dc : D c) by (apply (D_sub _ _ Dx); right; apply subnodes_self).
+      specialize (IH Dc gd hd gm hm HD HM). destruct (nvisit c hd hm) as [[d1 m1] v1]. cbn [fst snd] in IH.
+      destruct IH as (gd1 & gm1 & E1 & HD1 & HM1). rewrite E1.
+      exact (fin_un (NUn u c) gd1 d1 gm1 m1 v1 Dx eq_refl HD1 HM1).
+  - pose proof (D_past _ Dx) as Hp. cbn [top_past] in Hp. cbn [gen_update OnlineNamed.nvisit]. rewrite Hp.
+    pose proof (HM _ Dx eq_refl) as Hm. unfold sd_mem, sd_get at 1. rewrite Hm.
+    destruct (nlookup hm (nname (NTUn u b e c))) as [v|] eqn:El.
+    + exists gd, gm. cbn [fst snd]. repeat split; assumption.
+    + assert (Dc : D c) by (apply (D_sub _ _ Dx); right; apply subnodes_self).
+      specialize (IH Dc gd hd gm hm HD HM). destruct (nvisit c hd hm) as [[d1 m1] v1]. cbn [fst snd] in IH.
+      destruct IH as (gd1 & gm1 & E1 & HD1 & HM1). rewrite E1.
+      exact (fin_un (NTUn u b e c) gd1 d1 gm1 m1 v1 Dx eq_refl HD1 HM1).
+  - pose proof (D_past _ Dx) as Hp. cbn [top_past] in Hp. cbn [gen_update OnlineNamed.nvisit].
+    pose proof (HM _ Dx eq_refl) as Hm. unfold sd_mem, sd_get at 1. rewrite Hm.
+    destruct (nlookup hm (nname (NFn2 u c1 c2))) as [v|] eqn:El.
+    + exists gd, gm. cbn [fst snd]. repeat split; assumption.
+    + assert (Dc1 : D c1) by (apply (D_sub _ _ Dx); right; apply in_or_app; left; apply subnodes_self).
+      assert (Dc2 : D c2) by (apply (D_sub _ _ Dx); right; apply in_or_app; right; apply subnodes_self).
+      unfold nvisit_bi.
+      specialize (IH1 Dc1 gd hd gm hm HD HM). destruct (nvisit c1 hd hm) as [[d1 m1] v1]. cbn [fst snd] in IH1.
+      destruct IH1 as (gd1 & gm1 & E1 & HD1 & HM1). rewrite E1.
+      specialize (IH2 Dc2 gd1 d1 gm1 m1 HD1 HM1). destruct (nvisit c2 d1 m1) as [[d2 m2] v2]. cbn [fst snd] in IH2.
+      destruct IH2 as (gd2 & gm2 & E2 & HD2 & HM2). rewrite E2.
+      exact (fin_bi (NFn2 u c1 c2) gd2 d2 gm2 m2 v1 v2 Dx eq_refl HD2 HM2).
+  - pose proof (D_past _ Dx) as Hp. cbn [top_past] in Hp. cbn [gen_update OnlineNamed.nvisit]. rewrite Hp.
+    pose proof (HM _ Dx eq_refl) as Hm. unfold sd_mem, sd_get at 1. rewrite Hm.
+    destruct (nlookup hm (nname (NBin u c1 c2))) as [v|] eqn:El.
+    + exists gd, gm. cbn [fst snd]. repeat split; assumption.
+    + assert (Dc1 : D c1) by (apply (D_sub _ _ Dx); right; apply in_or_app; left; apply subnodes_self).
+      assert (Dc2 : D c2) by (apply (D_sub _ _ Dx); right; apply in_or_app; right; apply subnodes_self).
+      unfold nvisit_bi.
+      specialize (IH1 Dc1 gd hd gm hm HD HM). destruct (nvisit c1 hd hm) as [[d1 m1] v1]. cbn [fst snd] in IH1.
+      destruct IH1 as (gd1 & gm1 & E1 & HD1 & HM1). rewrite E1.
+      specialize (IH2 Dc2 gd1 d1 gm1 m1 HD1 HM1). destruct (nvisit c2 d1 m1) as [[d2 m2] v2]. cbn [fst snd] in IH2.
+      destruct IH2 as (gd2 & gm2 & E2 & HD2 & HM2). rewrite E2.
+      exact (fin_bi (NBin u c1 c2) gd2 d2 gm2 m2 v1 v2 Dx eq_refl HD2 HM2).
+  - pose proof (D_past _ Dx) as Hp. cbn [top_past] in Hp. cbn [gen_update OnlineNamed.nvisit]. rewrite Hp.
+    pose proof (HM _ Dx eq_refl) as Hm. unfold sd_mem, sd_get at 1. rewrite Hm.
+    destruct (nlookup hm (nname (NTBin u b e c1 c2))) as [v|] eqn:El.
+    + exists gd, gm. cbn [fst snd]. repeat split; assumption.
+    + assert (Dc1 : D c1) by (apply (D_sub _ _ Dx); right; apply in_or_app; left; apply subnodes_self).
+      assert (Dc2 : D c2) by (apply (D_sub _ _ Dx); right; apply in_or_app; right; apply subnodes_self).
+      unfold nvisit_bi.
+      specialize (IH1 Dc1 gd hd gm hm HD HM). destruct (nvisit c1 hd hm) as [[d1 m1] v1]. cbn [fst snd] in IH1.
+      destruct IH1 as (gd1 & gm1 & E1 & HD1 & HM1). rewrite E1.
+      specialize (IH2 Dc2 gd1 d1 gm1 m1 HD1 HM1). destruct (nvisit c2 d1 m1) as [[d2 m2] v2]. cbn [fst snd] in IH2.
+      destruct IH2 as (gd2 & gm2 & E2 & HD2 & HM2). rewrite E2.
+      exact (fin_bi (NTBin u b e c1 c2) gd2 d2 gm2 m2 v1 v2 Dx eq_refl HD2 HM2).
+Qed.
+(* visitAst: every root in order, one memo *)
+Lemma gen_forest_refines : forall F, (forall x, In x F -> D x) -> forall gd hd gm hm, DictRel gd hd -> MemoRel gm hm ->
+  exists gd', gen_update_forest AR cval vobj F gd gm = Some (gd', snd (nvisit_forest AR pk0 vidx cval bnd env F hd hm)) /\
+    DictRel gd' (fst (nvisit_forest AR pk0 vidx cval bnd env F hd hm)).
+Proof.
+  induction F as [|x F IH]; intros HF gd hd gm hm HD HM.
+  - exists gd. split; [reflexivity|exact HD].
+  - cbn [gen_update_forest nvisit_forest].
+    destruct (gen_update_refines x (HF x (or_introl eq_refl)) gd hd gm hm HD HM) as (gd1 & gm1 & E1 & HD1 & HM1).
+    destruct (nvisit x hd hm) as [[d1 m1] v1]. cbn [fst snd] in *. rewrite E1.
+    destruct (IH (fun y Hy => HF y (or_intror Hy)) gd1 d1 gm1 m1 HD1 HM1) as (gd2 & E2 & HD2).
+    destruct (nvisit_forest AR pk0 vidx cval bnd env F d1 m1) as [d2 vs]. cbn [fst snd] in *. rewrite E2.
+    exists gd2. split; [reflexivity|exact HD2].
+Qed.
+Lemma nvisit_forest_length : forall F hd hm, List.length (snd (nvisit_forest AR pk0 vidx cval bnd env F hd hm)) = List.length F.
+Proof.
+  induction F as [|x F IH]; intros hd hm; [reflexivity|]. cbn [nvisit_forest].
+  destruct (nvisit x hd hm) as [[d1 m1] v1]. specialize (IH d1 m1).
+  destruct (nvisit_forest AR pk0 vidx cval bnd env F d1 m1) as [d2 vs]. cbn [snd List.length] in *. rewrite IH. reflexivity.
+Qed.
+Lemma last_item_last {A} (l : list A) (d : A) : l <> [] -> last_item l = Some (last l d).
+Proof.
+  destruct l as [|a l]; [contradiction|]. intros _. unfold last_item. cbn [List.length]. rewrite Nat.sub_succ, Nat.sub_0_r.
+  revert a. induction l as [|b l IH]; intros a; [reflexivity|]. cbn [List.length nth_error]. rewrite (IH b). reflexivity.
+Qed.
+
+(* one call of update() *)
+Lemma gen_step_refines F : F <> [] -> (forall x, In x F -> D x) -> forall gd hd, DictRel gd hd ->
+  exists gd', gen_update_step AR cval vobj F gd = Some (gd', snd (nmon_step AR pk0 vidx cval bnd F hd env)) /\
+    DictRel gd' (fst (nmon_step AR pk0 vidx cval bnd F hd env)).
+Proof.
+  intros Hne HF gd hd HD. unfold gen_update_step, nmon_step.
+  assert (HM0 : MemoRel sd_empty []) by (intros a _ _; reflexivity).
+  destruct (gen_forest_refines F HF gd hd sd_empty [] HD HM0) as (gd1 & E1 & HD1). rewrite E1.
+  pose proof (nvisit_forest_length F hd []) as Hlen.
+  destruct (nvisit_forest AR pk0 vidx cval bnd env F hd []) as [d1 vs]. cbn [fst snd] in *.
+  rewrite (last_item_last vs bot) by (intros ->; destruct F; [contradiction|discriminate Hlen]).
+  exists gd1. split; [reflexivity|exact HD1].
+Qed.
+End OneUpdate.
+
+(* len calls of update() on the rows k0, k0+1, .. of a trace *)
+Theorem gen_run_refines F (w : trace) (vobjs : nat -> string -> string -> option V) :
+  F <> [] -> (forall x, In x F -> D x) -> (forall k v f, vobjs k v f = Some (sig w (vidx v f) k)) ->
+  forall len k0 gd hd, DictRel gd hd ->
+  exists gd', gen_run AR cval vobjs F gd k0 len = Some (gd', snd (nmon_run AR pk0 vidx cval bnd F hd w k0 len)) /\
+    DictRel gd' (fst (nmon_run AR pk0 vidx cval bnd F hd w k0 len)).
+Proof.
+  intros Hne HF Hv. induction len as [|len IH]; intros k0 gd hd HD.
+  - exists gd. split; [reflexivity|exact HD].
+  - cbn [gen_run nmon_run].
+    destruct (gen_step_refines (row w k0) (vobjs k0) (fun v f => Hv k0 v f) F Hne HF gd hd HD) as (gd1 & E1 & HD1). rewrite E1.
+    destruct (nmon_step AR pk0 vidx cval bnd F hd (row w k0)) as [d1 v]. cbn [fst snd] in *.
+    destruct (IH (S k0) gd1 d1 HD1) as (gd2 & E2 & HD2). rewrite E2.
+    destruct (nmon_run AR pk0 vidx cval bnd F d1 w (S k0) len) as [d2 vs]. cbn [fst snd] in *.
+    exists gd2. split; [reflexivity|exact HD2].
+Qed.
+(* ---- the construction visitor on a whole tree / forest (mirrors OnlineNamedCorrect.nbuild_spec) ---- *)
+Section Build.
+Hypothesis D_tut : forall a, D a -> tut_ok bnd tut a.
+Definition writes (b : node) : bool := match b with NConst _ => false | _ => true end.
+Definition cspecL (L : list node) (gd gd' : sdict gop) (key : string) : Prop :=
+  (gd' key = gd key /\ forall b, In b L -> writes b = true -> nname b <> key) \/
+  (exists b, In b L /\ writes b = true /\ nname b = key /\ exists o, gd' key = Some o /\ OpRel b o (op_init (sem b))).
+Definition cspec (x : node) := cspecL (subnodes x).
+
+Lemma cspec_top x (gd gd1 : sdict gop) o key : writes x = true -> OpRel x o (op_init (sem x)) ->
+  (forall k, k <> nname x ->
+     (gd1 k = gd k /\ forall b, In b (tl (subnodes x)) -> writes b = true -> nname b <> k) \/
+     (exists b, In b (tl (subnodes x)) /\ writes b = true /\ nname b = k /\ exists o, gd1 k = Some o /\ OpRel b o (op_init (sem b)))) ->
+  cspec x gd (sd_set gd1 (nname x) o) key.
+Proof.
+  intros Hw Ho Hk. assert (Hs : subnodes x = x :: tl (subnodes x)) by (destruct x; reflexivity).
+  unfold cspec, cspecL, sd_set. destruct (String.eqb_spec key (nname x)) as [->|Hne].
+  - right. exists x. split; [apply subnodes_self|]. split; [exact Hw|]. split; [reflexivity|]. exists o. split; [reflexivity|exact Ho].
+  - destruct (Hk key Hne) as [[E N]|(b & Hb & Hwb & Hn & o' & Eo & Ro)].
+    + left. split; [exact E|]. intros b Hb Hwb. rewrite Hs in Hb. destruct Hb as [<-|Hb]; [congruence|exact (N b Hb Hwb)].
+    + right. exists b. split; [rewrite Hs; right; exact Hb|]. split; [exact Hwb|]. split; [exact Hn|]. exists o'. split; assumption.
+Qed.
+
+Lemma cspecL_seq L1 L2 (gd gd1 gd2 : sdict gop) k : cspecL L1 gd gd1 k -> cspecL L2 gd1 gd2 k -> cspecL (L1 ++ L2) gd gd2 k.
+Proof.
+  unfold cspecL. intros S1 [[E2 N2]|(b & Hb & Hwb & Hn & o & Eo & Ro)].
+  - destruct S1 as [[E1 N1]|(b & Hb & Hwb & Hn & o & Eo & Ro)].
+    + left. split; [rewrite E2; exact E1|]. intros b Hb Hwb. apply in_app_or in Hb. destruct Hb as [Hb|Hb]; [exact (N1 b Hb Hwb)|exact (N2 b Hb Hwb)].
+    + right. exists b. split; [apply in_or_app; left; exact Hb|]. split; [exact Hwb|]. split; [exact Hn|]. exists o. split; [rewrite E2; exact Eo|exact Ro].
+  - right. exists b. split; [apply in_or_app; right; exact Hb|]. split; [exact Hwb|]. split; [exact Hn|]. exists o. split; assumption.
+Qed.
+
+Lemma gen_construct_spec : forall x, D x -> forall gd, exists gd', gen_construct tut x gd = Some gd' /\ forall key, cspec x gd gd' key.
+Proof.
+  induction x as [v f|t|u c IH|u b e c IH|u c1 IH1 c2 IH2|u c1 IH1 c2 IH2|u b e c1 IH1 c2 IH2]; intros Dx gd.
+  - eexists. split; [reflexivity|]. intros key. apply cspec_top; [reflexivity|exact I|]. intros k _. left. split; [reflexivity|intros b []].
+  - exists gd. split; [reflexivity|]. intros key. left. split; [reflexivity|]. intros b [<-|[]] Hw. discriminate Hw.
+  - assert (Dc : D c) by (apply (D_sub _ _ Dx); right; apply subnodes_self).
+    destruct (IH Dc gd) as (gd1 & E1 & S1).
+    destruct (gen_construct_un AR vidx cval bnd tut (NUn u c) c gd gd1 (or_introl (ex_intro _ u eq_refl)) (D_past _ Dx) (D_wfb _ Dx) (D_tut _ Dx) E1) as (o & E & Ro).
+    eexists. split; [exact E|]. intros key. apply cspec_top; [reflexivity|exact Ro|]. intros k _. exact (S1 k).
+  - assert (Dc : D c) by (apply (D_sub _ _ Dx); right; apply subnodes_self).
+    destruct (IH Dc gd) as (gd1 & E1 & S1).
+    destruct (gen_construct_un AR vidx cval bnd tut (NTUn u b e c) c gd gd1 (or_intror (ex_intro _ u (ex_intro _ b (ex_intro _ e eq_refl)))) (D_past _ Dx) (D_wfb _ Dx) (D_tut _ Dx) E1) as (o & E & Ro).
+    eexists. split; [exact E|]. intros key. apply cspec_top; [reflexivity|exact Ro|]. intros k _. exact (S1 k).
+  - assert (Dc1 : D c1) by (apply (D_sub _ _ Dx); right; apply in_or_app; left; apply subnodes_self).
+    assert (Dc2 : D c2) by (apply (D_sub _ _ Dx); right; apply in_or_app; right; apply subnodes_self).
+    destruct (IH1 Dc1 gd) as (gd1 & E1 & S1). destruct (IH2 Dc2 gd1) as (gd2 & E2 & S2).
+    destruct (gen_construct_bi AR vidx cval bnd tut (NFn2 u c1 c2) c1 c2 gd gd1 gd2 (or_introl (ex_intro _ u eq_refl)) (D_past _ Dx) (D_wfb _ Dx) (D_tut _ Dx) E1 E2) as (o & E & Ro).
+    eexists. split; [exact E|]. intros key. apply cspec_top; [reflexivity|exact Ro|]. intros k _. exact (cspecL_seq _ _ gd gd1 gd2 k (S1 k) (S2 k)).
+  - assert (Dc1 : D c1) by (apply (D_sub _ _ Dx); right; apply in_or_app; left; apply subnodes_self).
+    assert (Dc2 : D c2) by (apply (D_sub _ _ Dx); right; apply in_or_app; right; apply subnodes_self).
+    destruct (IH1 Dc1 gd) as (gd1 & E1 & S1). destruct (IH2 Dc2 gd1) as (gd2 & E2 & S2).
+    destruct (gen_construct_bi AR vidx cval bnd tut (NBin u c1 c2) c1 c2 gd gd1 gd2 (or_intror (or_introl (ex_intro _ u eq_refl))) (D_past _ Dx) (D_wfb _ Dx) (D_tut _ Dx) E1 E2) as (o & E & Ro).
+    eexists. split; [exact E|]. intros key. apply cspec_top; [reflexivity|exact Ro|]. intros k _. exact (cspecL_seq _ _ gd gd1 gd2 k (S1 k) (S2 k)).
+  - assert (Dc1 : D c1) by (apply (D_sub _ _ Dx); right; apply in_or_app; left; apply subnodes_self).
+    assert (Dc2 : D c2) by (apply (D_sub _ _ Dx); right; apply in_or_app; right; apply subnodes_self).
+    destruct (IH1 Dc1 gd) as (gd1 & E1 & S1). destruct (IH2 Dc2 gd1) as (gd2 & E2 & S2).
+    destruct (gen_construct_bi AR vidx cval bnd tut (NTBin u b e c1 c2) c1 c2 gd gd1 gd2 (or_intror (or_intror (ex_intro _ u (ex_intro _ b (ex_intro _ e eq_refl))))) (D_past _ Dx) (D_wfb _ Dx) (D_tut _ Dx) E1 E2) as (o & E & Ro).
+    eexists. split; [exact E|]. intros key. apply cspec_top; [reflexivity|exact Ro|]. intros k _. exact (cspecL_seq _ _ gd gd1 gd2 k (S1 k) (S2 k)).
+Qed.
+Lemma gen_construct_forest_spec : forall F, (forall x, In x F -> D x) -> forall gd,
+  exists gd', gen_construct_forest tut F gd = Some gd' /\ forall key, cspecL (flat_map subnodes F) gd gd' key.
+Proof.
+  induction F as [|x F IH]; intros HF gd.
+  - exists gd. split; [reflexivity|]. intros key. left. split; [reflexivity|intros b []].
+  - cbn [gen_construct_forest flat_map].
+    destruct (gen_construct_spec x (HF x (or_introl eq_refl)) gd) as (gd1 & E1 & S1). rewrite E1.
+    destruct (IH (fun y Hy => HF y (or_intror Hy)) gd1) as (gd2 & E2 & S2). rewrite E2.
+    exists gd2. split; [reflexivity|]. intros key. exact (cspecL_seq _ _ gd gd1 gd2 key (S1 key) (S2 key)).
+Qed.
+
+(* set_ast: the dictionary it builds is related to the hand model's ndict_init *)
+Theorem gen_set_ast_refines F : (forall a, D a <-> DN F a) ->
+  exists gd0, gen_set_ast tut F = Some gd0 /\ DictRel gd0 (ndict_init vidx cval bnd F).
+Proof.
+  intros HDN. assert (HF : forall x, In x F -> D x).
+  { intros x Hx. apply HDN. apply in_flat_map. exists x. split; [exact Hx|apply subnodes_self]. }
+  destruct (gen_construct_forest_spec F HF sd_empty) as (gd0 & E0 & S0). exists gd0. split; [exact E0|].
+  intros a Da Hl. assert (Ha : DN F a) by (apply HDN; exact Da).
+  assert (Hw : writes a = true) by (destruct a; try reflexivity; discriminate Hl).
+  destruct (S0 (nname a)) as [[_ N]|(b & Hb & _ & Hn & o & Eo & Ro)]; [exfalso; exact (N a Ha Hw eq_refl)|].
+  rewrite (D_inj b a (proj2 (HDN b) Hb) Da Hn) in Ro. exists o. split; [exact Eo|].
+  unfold ndict_init.
+  destruct (nbuild_forest_spec vidx cval bnd F (fun _ => StNone) (nname a)) as [[_ N]|(b' & Hb' & Hn' & E')]; [exfalso; exact (N a Ha eq_refl)|].
+  rewrite E', (D_inj b' a (proj2 (HDN b') Hb') Da Hn'). exact Ro.
+Qed.
+End Build.
+
+(* ---- the reset visitor on a whole tree / forest: every operator of the specification is back in its initial state ---- *)
+Lemma OpRel_good a o h : is_un a || is_bi a = true -> top_past a = true -> OpRel a o h -> good (sem a) h.
+Proof.
+  intros Hs Hp HR.
+  destruct a as [v f|t|u c|u b e c|u c1 c2|u c1 c2|u b e c1 c2]; try discriminate Hs; destruct u; try discriminate Hp; try exact I;
+    destruct o; cbn [OnlineVisitorGenCorrect.OpRel] in HR; try contradiction; cbn [OnlineNamed.sem tun_formula tbin_formula good];
+    unfold R_oncet, R_histt, R_sincet, R_precedes in HR;
+    first [destruct HR as (_ & _ & Hl & ->); exact Hl | destruct HR as (_ & _ & Hl & Hr & ->); split; assumption].
+Qed.
+
+Definition rspecL (L : list node) (hd hd' : ndict) (key : string) : Prop :=
+  (hd' key = hd key /\ forall b, In b L -> nleaf b = false -> nname b <> key) \/
+  (exists b, In b L /\ nleaf b = false /\ nname b = key /\ hd' key = op_init (sem b)).
+Lemma rspecL_seq L1 L2 (hd hd1 hd2 : ndict) k : rspecL L1 hd hd1 k -> rspecL L2 hd1 hd2 k -> rspecL (L1 ++ L2) hd hd2 k.
+Proof.
+  unfold rspecL. intros S1 [[E2 N2]|(b & Hb & Hlb & Hn & Eo)].
+  - destruct S1 as [[E1 N1]|(b & Hb & Hlb & Hn & Eo)].
+    + left. split; [rewrite E2; exact E1|]. intros b Hb Hlb. apply in_app_or in Hb. destruct Hb as [Hb|Hb]; [exact (N1 b Hb Hlb)|exact (N2 b Hb Hlb)].
+    + right. exists b. split; [apply in_or_app; left; exact Hb|]. split; [exact Hlb|]. split; [exact Hn|]. rewrite E2; exact Eo.
+  - right. exists b. split; [apply in_or_app; right; exact Hb|]. split; [exact Hlb|]. split; [exact Hn|exact Eo].
+Qed.
+(* the generated visitUnary / visitBinary of the reset visitor after the children *)
+Lemma reset_top x (gd1 : sdict gop) (hd hd1 : ndict) : D x -> is_un x || is_bi x = true -> DictRel gd1 hd1 ->
+  (forall k, rspecL (tl (subnodes x)) hd hd1 k) ->
+  exists o, sd_get gd1 (nname x) = Some o /\
+    DictRel (sd_set gd1 (nname x) (gop_reset o)) (nupd hd1 (nname x) (op_init (sem x))) /\
+    forall key, rspecL (subnodes x) hd (nupd hd1 (nname x) (op_init (sem x))) key.
+Proof.
+  intros Dx Hs HD1 S1.
+  assert (Hl : nleaf x = false) by (destruct x; try discriminate Hs; reflexivity).
+  destruct (HD1 _ Dx Hl) as (o & Eo & Ro). exists o. split; [exact Eo|]. split.
+  - apply dict_upd; [exact HD1|exact Dx|].
+    rewrite <- (op_reset_good pk0 (sem x) (hd1 (nname x)) (OpRel_good x o _ Hs (D_past _ Dx) Ro)).
+    exact (gop_reset_refines AR vidx cval bnd x o _ Hs (D_past _ Dx) (D_wfb _ Dx) Ro).
+  - intros key. assert (Hsn : subnodes x = x :: tl (subnodes x)) by (destruct x; reflexivity).
+    unfold rspecL, nupd. destruct (String.eqb_spec key (nname x)) as [->|Hne].
+    + right. exists x. split; [apply subnodes_self|]. split; [exact Hl|]. split; reflexivity.
+    + destruct (S1 key) as [[E N]|(b & Hb & Hlb & Hn & E)].
+      * left. split; [exact E|]. intros b Hb Hlb. rewrite Hsn in Hb. destruct Hb as [<-|Hb]; [congruence|exact (N b Hb Hlb)].
+      * right. exists b. split; [rewrite Hsn; right; exact Hb|]. split; [exact Hlb|]. split; [exact Hn|exact E].
+Qed.
+
+Lemma gen_reset_spec : forall x, D x -> forall gd hd, DictRel gd hd ->
+  exists gd' hd', gen_reset x gd = Some gd' /\ DictRel gd' hd' /\ forall key, rspecL (subnodes x) hd hd' key.
+Proof.
+  induction x as [v f|t|u c IH|u b e c IH|u c1 IH1 c2 IH2|u c1 IH1 c2 IH2|u b e c1 IH1 c2 IH2]; intros Dx gd hd HD.
+  - exists gd, hd. split; [reflexivity|]. split; [exact HD|]. intros key. left. split; [reflexivity|]. intros b [<-|[]] Hl. discriminate Hl.
+  - exists gd, hd. split; [reflexivity|]. split; [exact HD|]. intros key. left. split; [reflexivity|]. intros b [<-|[]] Hl. discriminate Hl.
+  - assert (Dc : D c) by (apply (D_sub _ _ Dx); right; apply subnodes_self).
+    destruct (IH Dc gd hd HD) as (gd1 & hd1 & E1 & HD1 & S1).
+    destruct (reset_top (NUn u c) gd1 hd hd1 Dx eq_refl HD1 S1) as (o & Eo & HD' & S').
+    cbn [gen_reset]. rewrite E1, Eo. eexists; eexists. split; [reflexivity|]. split; [exact HD'|exact S'].
+  - assert (Dc : D c) by (apply (D_sub _ _ Dx); right; apply subnodes_self).
+    destruct (IH Dc gd hd HD) as (gd1 & hd1 & E1 & HD1 & S1).
+    destruct (reset_top (NTUn u b e c) gd1 hd hd1 Dx eq_refl HD1 S1) as (o & Eo & HD' & S').
+    cbn [gen_reset]. rewrite E1, Eo. eexists; eexists. split; [reflexivity|]. split; [exact HD'|exact S'].
+  - assert (Dc1 : D c1) by (apply (D_sub _ _ Dx); right; apply in_or_app; left; apply subnodes_self).
+    assert (Dc2 : D c2) by (apply (D_sub _ _ Dx); right; apply in_or_app; right; apply subnodes_self).
+    destruct (IH1 Dc1 gd hd HD) as (gd1 & hd1 & E1 & HD1 & S1). destruct (IH2 Dc2 gd1 hd1 HD1) as (gd2 & hd2 & E2 & HD2 & S2).
+    destruct (reset_top (NFn2 u c1 c2) gd2 hd hd2 Dx eq_refl HD2 (fun k => rspecL_seq _ _ hd hd1 hd2 k (S1 k) (S2 k))) as (o & Eo & HD' & S').
+    cbn [gen_reset]. rewrite E1, E2, Eo. eexists; eexists. split; [reflexivity|]. split; [exact HD'|exact S'].
+  - assert (Dc1 : D c1) by (apply (D_sub _ _ Dx); right; apply in_or_app; left; apply subnodes_self).
+    assert (Dc2 : D c2) by (apply (D_sub _ _ Dx); right; apply in_or_app; right; apply subnodes_self).
+    destruct (IH1 Dc1 gd hd HD) as (gd1 & hd1 & E1 & HD1 & S1). destruct (IH2 Dc2 gd1 hd1 HD1) as (gd2 & hd2 & E2 & HD2 & S2).
+    destruct (reset_top (NBin u c1 c2) gd2 hd hd2 Dx eq_refl HD2 (fun k => rspecL_seq _ _ hd hd1 hd2 k (S1 k) (S2 k))) as (o & Eo & HD' & S').
+    cbn [gen_reset]. rewrite E1, E2, Eo. eexists; eexists. split; [reflexivity|]. split; [exact HD'|exact S'].
+  - assert (Dc1 : D c1) by (apply (D_sub _ _ Dx); right; apply in_or_app; left; apply subnodes_self).
+    assert (Dc2 : D c2) by (apply (D_sub _ _ Dx); right; apply in_or_app; right; apply subnodes_self).
+    destruct (IH1 Dc1 gd hd HD) as (gd1 & hd1 & E1 & HD1 & S1). destruct (IH2 Dc2 gd1 hd1 HD1) as (gd2 & hd2 & E2 & HD2 & S2).
+    destruct (reset_top (NTBin u b e c1 c2) gd2 hd hd2 Dx eq_refl HD2 (fun k => rspecL_seq _ _ hd hd1 hd2 k (S1 k) (S2 k))) as (o & Eo & HD' & S').
+    cbn [gen_reset]. rewrite E1, E2, Eo. eexists; eexists. split; [reflexivity|]. split; [exact HD'|exact S'].
+Qed.
+
+Lemma gen_reset_forest_spec : forall F, (forall x, In x F -> D x) -> forall gd hd, DictRel gd hd ->
+  exists gd' hd', gen_reset_forest F gd = Some gd' /\ DictRel gd' hd' /\ forall key, rspecL (flat_map subnodes F) hd hd' key.
+Proof.
+  induction F as [|x F IH]; intros HF gd hd HD.
+  - exists gd, hd. split; [reflexivity|]. split; [exact HD|]. intros key. left. split; [reflexivity|intros b []].
+  - cbn [gen_reset_forest flat_map].
+    destruct (gen_reset_spec x (HF x (or_introl eq_refl)) gd hd HD) as (gd1 & hd1 & E1 & HD1 & S1). rewrite E1.
+    destruct (IH (fun y Hy => HF y (or_intror Hy)) gd1 hd1 HD1) as (gd2 & hd2 & E2 & HD2 & S2). rewrite E2.
+    exists gd2, hd2. split; [reflexivity|]. split; [exact HD2|]. intros key. exact (rspecL_seq _ _ hd hd1 hd2 key (S1 key) (S2 key)).
+Qed.
+
+(* reset(): afterwards the dictionary is related to the dictionary of a freshly built hand monitor *)
+Theorem gen_reset_refines F gd hd : (forall a, D a <-> DN F a) -> DictRel gd hd ->
+  exists gd', gen_reset_forest F gd = Some gd' /\ DictRel gd' (ndict_init vidx cval bnd F).
+Proof.
+  intros HDN HD. assert (HF : forall x, In x F -> D x).
+  { intros x Hx. apply HDN. apply in_flat_map. exists x. split; [exact Hx|apply subnodes_self]. }
+  destruct (gen_reset_forest_spec F HF gd hd HD) as (gd' & hd' & E & HD' & S). exists gd'. split; [exact E|].
+  intros a Da Hl. assert (Ha : DN F a) by (apply HDN; exact Da).
+  destruct (HD' a Da Hl) as (o & Eo & Ro). exists o. split; [exact Eo|].
+  assert (E1 : hd' (nname a) = op_init (sem a)).
+  { destruct (S (nname a)) as [[_ N]|(b & Hb & _ & Hn & Eb)]; [exfalso; exact (N a Ha Hl eq_refl)|].
+    rewrite Eb, (D_inj b a (proj2 (HDN b) Hb) Da Hn). reflexivity. }
+  assert (E2 : ndict_init vidx cval bnd F (nname a) = op_init (sem a)).
+  { unfold ndict_init.
+    destruct (nbuild_forest_spec vidx cval bnd F (fun _ => StNone) (nname a)) as [[_ N]|(b' & Hb' & Hn' & E')]; [exfalso; exact (N a Ha eq_refl)|].
+    rewrite E', (D_inj b' a (proj2 (HDN b') Hb') Da Hn'). reflexivity. }
+  rewrite E2, <- E1. exact Ro.
+Qed.
+End TreeCorrect.
+
+(* ---- the closed statement: on a well-formed, supported specification the generated set_ast succeeds and len generated updates
+   return exactly the verdicts of the hand monitor keyed by node name (OnlineNamed.nmon_run from ndict_init) ---- *)
+Section Closed.
+Context {VS : Val} (AR : Arith VS).
+Variable vidx : string -> string -> nat.
+Variable cval : string -> V.
+Variable bnd : bound -> bound -> nat * nat.
+Notation sem := (sem vidx cval bnd).
+
+Lemma top_past_of a : past_only (sem a) = true -> top_past a = true.
+Proof.
+  intros H. destruct a as [v f|t|u c|u b e c|u c1 c2|u c1 c2|u b e c1 c2]; try reflexivity; destruct u; try reflexivity; cbn in H; discriminate H.
+Qed.
+Lemma top_wfb_of a : wf_bounds (sem a) = true -> top_wfb bnd a.
+Proof.
+  intros H. destruct a as [v f|t|u c|u b e c|u c1 c2|u c1 c2|u b e c1 c2]; try exact I; destruct u; cbn [OnlineNamed.sem tun_formula tbin_formula wf_bounds] in H;
+    cbn [top_wfb]; repeat (apply andb_true_iff in H; destruct H as [H _]); apply Nat.leb_le; exact H.
+Qed.
+
+Theorem gen_monitor_refines (tut : bound -> bound -> option (Z * Z)) (F : list node) (w : trace)
+    (vobjs : nat -> string -> string -> option V) (len : nat) :
+  F <> [] ->
+  (forall x, In x F -> nwf x = true /\ past_only (sem x) = true /\ wf_bounds (sem x) = true) ->
+  (forall a, DN F a -> tut_ok bnd tut a) ->
+  (forall k v f, vobjs k v f = Some (sig w (vidx v f) k)) ->
+  exists gd0, gen_set_ast tut F = Some gd0 /\
+  exists gd1, gen_run AR cval vobjs F gd0 0 len
+              = Some (gd1, snd (nmon_run AR pk0 vidx cval bnd F (ndict_init vidx cval bnd F) w 0 len)).
+Proof.
+  intros Hne HF Htut Hv.
+  assert (Hinj : forall a b, DN F a -> DN F b -> nname a = nname b -> a = b).
+  { apply names_injective. intros x Hx. apply HF. exact Hx. }
+  assert (Hroot : forall a, DN F a -> exists p, In p F /\ In a (subnodes p)) by (intros a Ha; apply in_flat_map in Ha; exact Ha).
+  assert (Hpast : forall a, DN F a -> top_past a = true).
+  { intros a Ha. destruct (Hroot a Ha) as (p & Hp & Hap). apply top_past_of. apply (sem_past vidx cval bnd p); [apply HF; exact Hp|exact Hap]. }
+  assert (Hwfb : forall a, DN F a -> top_wfb bnd a).
+  { intros a Ha. destruct (Hroot a Ha) as (p & Hp & Hap). apply top_wfb_of. apply (sem_wfb vidx cval bnd p); [apply HF; exact Hp|exact Hap]. }
+  destruct (gen_set_ast_refines AR vidx cval bnd tut (DN F) (DN_sub F) Hinj Hpast Hwfb Htut F (fun a => conj (fun H => H) (fun H => H))) as (gd0 & E0 & HD0).
+  exists gd0. split; [exact E0|].
+  assert (HFD : forall x, In x F -> DN F x).
+  { intros x Hx. apply in_flat_map. exists x. split; [exact Hx|apply subnodes_self]. }
+  destruct (gen_run_refines AR vidx cval bnd (DN F) (DN_sub F) Hinj Hpast Hwfb F w vobjs Hne HFD Hv len 0 gd0 _ HD0) as (gd1 & E1 & _).
+  exists gd1. exact E1.
+Qed.
+End Closed.
+Print Assumptions gen_monitor_refines.
+
+(* ---- reset(): after h updates on any data and the generated reset, len updates return what a freshly built generated monitor
+   returns on the same data (both: the verdicts of the hand monitor from ndict_init) ---- *)
+Section ClosedReset.
+Context {VS : Val} (AR : Arith VS).
+Variable vidx : string -> string -> nat.
+Variable cval : string -> V.
+Variable bnd : bound -> bound -> nat * nat.
+Notation sem := (sem vidx cval bnd).
+
+Theorem gen_reset_like_fresh (tut : bound -> bound -> option (Z * Z)) (F : list node) (w w' : trace)
+    (vobjs vobjs' : nat -> string -> string -> option V) (h len : nat) :
+  F <> [] ->
+  (forall x, In x F -> nwf x = true /\ past_only (sem x) = true /\ wf_bounds (sem x) = true) ->
+  (forall a, DN F a -> tut_ok bnd tut a) ->
+  (forall k v f, vobjs k v f = Some (sig w (vidx v f) k)) ->
+  (forall k v f, vobjs' k v f = Some (sig w' (vidx v f) k)) ->
+  exists gd0 gd1 outs1 gd2 gd3 gd3',
+    gen_set_ast tut F = Some gd0 /\
+    gen_run AR cval vobjs F gd0 0 h = Some (gd1, outs1) /\
+    gen_reset_forest F gd1 = Some gd2 /\
+    gen_run AR cval vobjs' F gd2 0 len = Some (gd3, snd (nmon_run AR pk0 vidx cval bnd F (ndict_init vidx cval bnd F) w' 0 len)) /\
+    gen_run AR cval vobjs' F gd0 0 len = Some (gd3', snd (nmon_run AR pk0 vidx cval bnd F (ndict_init vidx cval bnd F) w' 0 len)).
+Proof.
+  intros Hne HF Htut Hv Hv'.
+  assert (Hinj : forall a b, DN F a -> DN F b -> nname a = nname b -> a = b).
+  { apply names_injective. intros x Hx. apply HF. exact Hx. }
+  assert (Hroot : forall a, DN F a -> exists p, In p F /\ In a (subnodes p)) by (intros a Ha; apply in_flat_map in Ha; exact Ha).
+  assert (Hpast : forall a, DN F a -> top_past a = true).
+  { intros a Ha. destruct (Hroot a Ha) as (p & Hp & Hap). apply (top_past_of vidx cval bnd). apply (sem_past vidx cval bnd p); [apply HF; exact Hp|exact Hap]. }
+  assert (Hwfb : forall a, DN F a -> top_wfb bnd a).
+  { intros a Ha. destruct (Hroot a Ha) as (p & Hp & Hap). apply (top_wfb_of vidx cval bnd). apply (sem_wfb vidx cval bnd p); [apply HF; exact Hp|exact Hap]. }
+  assert (HFD : forall x, In x F -> DN F x).
+  { intros x Hx. apply in_flat_map. exists x. split; [exact Hx|apply subnodes_self]. }
+  pose proof (fun a : node => conj (fun H : DN F a => H) (fun H : DN F a => H)) as Hid.
+  destruct (gen_set_ast_refines AR vidx cval bnd tut (DN F) (DN_sub F) Hinj Hpast Hwfb Htut F Hid) as (gd0 & E0 & HD0).
+  destruct (gen_run_refines AR vidx cval bnd (DN F) (DN_sub F) Hinj Hpast Hwfb F w vobjs Hne HFD Hv h 0 gd0 _ HD0) as (gd1 & E1 & HD1).
+  destruct (gen_reset_refines AR vidx cval bnd (DN F) (DN_sub F) Hinj Hpast Hwfb F gd1 _ Hid HD1) as (gd2 & E2 & HD2).
+  destruct (gen_run_refines AR vidx cval bnd (DN F) (DN_sub F) Hinj Hpast Hwfb F w' vobjs' Hne HFD Hv' len 0 gd2 _ HD2) as (gd3 & E3 & _).
+  destruct (gen_run_refines AR vidx cval bnd (DN F) (DN_sub F) Hinj Hpast Hwfb F w' vobjs' Hne HFD Hv' len 0 gd0 _ HD0) as (gd3' & E3' & _).
+  eexists gd0, gd1, _, gd2, gd3, gd3'. split; [exact E0|]. split; [exact E1|]. split; [exact E2|]. split; [exact E3|exact E3'].
+Qed.
+End ClosedReset.
+Print Assumptions gen_reset_like_fresh.
